@@ -328,10 +328,51 @@ void Exec::op_wbasis(Client &c) {
 	compare_others("wbasis");
 }
 
+// ------------------------------------------------------------------ foreign producer of basis files: valid ones in layouts the library's
+// writer never uses, and files that are well-formed line by line but do not describe a basis (C11: a reader hands back a basis or fails cleanly)
+void Exec::op_fbasis(Client &c) {
+	Obj *o = pick_obj(c, op->i("o")); if (!o || o->broken) { T("  skip"); return; }
+	const LP &m = o->m; size_t n = m.cols.size(), mr = m.rows.size();
+	StoredBasis b = make_basis_pattern(m, op->i("pat")); long style = op->i("style", 0); int mal = (int)op->i("mal", 0);
+	std::vector<int> bc, nbr, br, nbc; for (size_t j = 0; j < n; j++) (b.cstat[j] == '1' ? bc : nbc).push_back((int)j); for (size_t i = 0; i < mr; i++) (b.rstat[i] == '1' ? br : nbr).push_back((int)i);
+	if (bc.size() != nbr.size()) { T("  skip (pattern without a valid basis)"); return; }
+	if (style % 2) std::reverse(nbr.begin(), nbr.end());
+	std::vector<std::string> lines; std::string done;
+	for (size_t k = 0; k < bc.size(); k++) lines.push_back(std::string(b.rstat[nbr[k]] == '2' ? " XU " : " XL ") + m.cols[bc[k]].name + " " + m.rows[nbr[k]].name);
+	for (int j : nbc) { if (b.cstat[j] == '2') lines.push_back(" UL " + m.cols[j].name); else if (style % 3 != 0) lines.push_back(" LL " + m.cols[j].name); }
+	if (style % 7 == 3) std::reverse(lines.begin(), lines.end());
+	auto pickl = [&](const char *pfx) { for (size_t k = 0; k < lines.size(); k++) { size_t q = (k + (size_t)style) % lines.size(); if (lines[q].compare(0, 4, pfx) == 0) return (int)q; } return -1; };
+	std::string head = "NAME foreignbasis\n", tail = style % 5 == 4 ? "" : "ENDATA\n";
+	switch (mal) {
+	case 0: break;
+	case 1: { int q = pickl(" XL "); if (q < 0) q = pickl(" XU "); if (q >= 0 && !br.empty()) { std::string col = split(lines[q].substr(4), ' ')[0]; lines.push_back(" XL " + col + " " + m.rows[br[(size_t)style % br.size()]].name); done = "column basic twice"; } break; }
+	case 2: { int q = pickl(" XL "); if (q < 0) q = pickl(" XU "); if (q >= 0 && !nbc.empty()) { std::string row = split(lines[q].substr(4), ' ')[1]; lines.push_back(" XL " + m.cols[nbc[(size_t)style % nbc.size()]].name + " " + row); done = "row non-basic twice"; } break; }
+	case 3: { for (size_t k = 0; k < lines.size() && done.empty(); k++) if (lines[k].compare(0, 4, " XL ") == 0) { std::string row = split(lines[k].substr(4), ' ')[1]; int i = m.row_index(row); if (i >= 0 && m.rows[i].sense != 'R') { lines[k][2] = 'U'; done = "XU on a row that is not ranged"; } } break; }
+	case 4: { int q = pickl(" XL "); if (q < 0) q = pickl(" XU "); if (q >= 0) { std::string col = split(lines[q].substr(4), ' ')[0]; lines.push_back(std::string(style % 2 ? " UL " : " LL ") + col); done = "bound status for a basic column"; } break; }
+	case 5: lines.push_back(" XL no_such_column " + (mr ? m.rows[0].name : std::string("r"))); done = "unknown column"; break;
+	case 6: if (n) { lines.push_back(" XU " + m.cols[0].name + " no_such_row"); done = "unknown row"; } break;
+	case 7: if (mr) { lines.push_back(" LL " + m.rows[0].name); done = "row name where a column is expected"; } break;
+	case 8: if (n) { lines.push_back(" XL " + m.cols[(size_t)style % n].name); done = "X line without row"; } break;
+	case 9: if (n) { lines.push_back(" BS " + m.cols[0].name); done = "unknown key"; } break;
+	case 10: head = ""; done = "no NAME line"; break;
+	case 11: head += "NAME again\n"; done = "two NAME lines"; break;
+	case 12: { if (!br.empty() && !nbc.empty()) { lines.push_back(" XL " + m.cols[nbc[0]].name + " " + m.rows[br[0]].name); lines.push_back(" LL " + m.cols[nbc[0]].name); done = "column made basic and then put at a bound"; } break; }
+	default: break;
+	}
+	std::string text = head; for (auto &l : lines) text += l + "\n"; text += tail;
+	std::string path = io_path(op, ".bas"); world.files[path] = store_bytes(path, text); world.expected_paths.insert(path);
+	FileInfo f; f.kind = "basis"; f.model = m; f.cstat = b.cstat; f.rstat = b.rstat; f.damaged = true; f.foreign = true; files[path] = f;
+	T(strf("  fbasis %s %d bytes mal=%d (%s) basis=%s|%s hash=%s", path.c_str(), (int)text.size(), mal, done.c_str(), b.cstat.c_str(), b.rstat.c_str(), hex64(hashstr(text)).c_str()));
+	if (trace) for (auto &l : split(text, '\n')) out_line("F   " + l);
+	if (!done.empty()) res.faults_fired["io.malformed_basis"]++;
+	last_fbasis_path = path; last_fbasis_valid = done.empty();
+}
+
 void Exec::op_rbasis(Client &c) {
 	Obj *o = pick_obj(c, op->i("o")); if (!o || o->broken) { T("  skip"); return; }
 	std::vector<std::string> ps; for (auto &kv : files) if (kv.second.kind == "basis") ps.push_back(kv.first);
 	std::string path = ps.empty() ? io_path(op, ".bas") : ps[modn(op->i("pick"), (long)ps.size())];
+	if (op->i("pick", 0) == -2 && !last_fbasis_path.empty()) path = last_fbasis_path;
 	if (op->i("missing", 0)) path = "/sim/nosuchfile.bas";
 	arm_file_faults(path);
 	bool load = op->s("how", "read") == "load"; bool exists = world.files.count(path) != 0;
@@ -353,6 +394,14 @@ void Exec::op_rbasis(Client &c) {
 		if (had != has || (had && (after.cstat != before.cstat || after.rstat != before.rstat))) violate("C07", "changed:readandloadbasis:failed", "a failed QSread_and_load_basis changed the problem's basis");
 	}
 	if (have && ((int)got.cstat.size() != (int)o->m.cols.size() || (int)got.rstat.size() != (int)o->m.rows.size())) { violate("C11", "basis-size", "a basis returned by the reader does not have the problem's dimensions"); compare_others("rbasis"); return; }
+	if (have && same_problem) {   // whatever the bytes were: what the reader hands back (or installs) is a basis of this problem - one basic variable per row, "at upper" only for ranged rows
+		BasisEval e = eval_basis(o->m, got.cstat, got.rstat); std::string why = e.counts_ok ? "" : "it does not have one basic variable per row (" + e.note + ")";
+		for (size_t i = 0; i < got.rstat.size() && why.empty(); i++) if (got.rstat[i] == '2' && o->m.rows[i].sense != 'R') why = strf("row %d is not ranged and is non-basic at upper", (int)i);
+		if (!why.empty()) { violate("C11", std::string("basis-invalid:") + (load ? "load" : "read"), "the basis file reader accepted a file and " + std::string(load ? "installed" : "returned") + " " + got.cstat + "|" + got.rstat + ": " + why);
+			if (load) o->broken = true; compare_others("rbasis"); return; }
+		probe("c11.basis_accepted_valid");
+		if (known && fit->second.foreign && last_fbasis_valid && path == last_fbasis_path) { const std::string &wc = fit->second.cstat, &wr = fit->second.rstat; bool same = true; for (size_t j = 0; j < wc.size(); j++) if ((wc[j] == '1') != (got.cstat[j] == '1') || (wc[j] == '2') != (got.cstat[j] == '2')) same = false; for (size_t i = 0; i < wr.size(); i++) if ((wr[i] == '1') != (got.rstat[i] == '1')) same = false; probe(same ? "c14.foreign_basis_read_as_meant" : "c14.foreign_basis_read_differently"); }
+	}
 	if (have && !damaged && same_problem) {
 		nontrivial("C14");
 		const std::string &wc = fit->second.cstat, &wr = fit->second.rstat; std::string d;
